@@ -117,6 +117,26 @@ Theorem C09_restart : forall g id,
 Proof. exact restart_preserves. Qed.
 Print Assumptions C09_restart.
 
+(** ... and in a later hour it reads exactly like the hourly flush. *)
+Theorem C09_restart_later_hour : forall g id,
+  Inv g -> cur_id (g_st g) < id < max_id ->
+  load_units (restart (g_st g) id) = load_units (flush (g_st g) id) /\
+  cur_id (restart (g_st g) id) = cur_id (flush (g_st g) id).
+Proof. exact restart_later_hour. Qed.
+Print Assumptions C09_restart_later_hour.
+
+(** Time units: days exactly when the limit spans more than 7 whole days; a
+    daily series has one point per whole day of the limit. *)
+Theorem C09_time_units : forall s, 1 <= lim s -> d_days (get_data s) = (7 <? lim s / 24).
+Proof. exact time_units. Qed.
+Print Assumptions C09_time_units.
+
+Theorem C09_daily_length : forall s,
+  1 <= lim s -> d_days (get_data s) = true ->
+  Z.of_nat (length (d_dns (get_data s))) = lim s / 24.
+Proof. exact daily_length. Qed.
+Print Assumptions C09_daily_length.
+
 (** Premises satisfiable, bounds attained non-trivially: 15 updates in the
     window, 10 reported after lowering and re-raising the limit. *)
 Theorem C09_conservation_example :
@@ -136,3 +156,24 @@ Theorem C09_exact_example :
   rep (CCat F) s = 2 /\ zsum (d_dns (get_data s)) = 7 /\ d_days (get_data s) = false.
 Proof. exact conservation_exact_premises. Qed.
 Print Assumptions C09_exact_example.
+
+Theorem C09_daily_example :
+  wf_hist 490000 ex_hist3 /\
+  let d := get_data (run (init 490000 (192 * ms_hour) true) ex_hist3) in
+  d_days d = true /\ zsum (d_dns d) = 3 /\ d_num d = 8 /\ length (d_dns d) = 8%nat /\
+  zsum (d_blocked d) = 2 /\ d_num_f d = 3.
+Proof. exact daily_premises. Qed.
+Print Assumptions C09_daily_example.
+
+Theorem C09_one_category_example :
+  let s := init 490000 (24 * ms_hour) true in
+  accepts s (ex_e 3) = true /\ 0 <= e_res (ex_e 3) /\ u_sb (cur (update s (ex_e 3))) = 1.
+Proof. exact update_one_category_premises. Qed.
+Print Assumptions C09_one_category_example.
+
+(** Outside the property, recorded because the model follows the code: a
+    negative result code passes Entry.validate and panics in unit.add. *)
+Theorem C09_negative_result_panics :
+  update_panics (init 490000 (24 * ms_hour) true) (ex_e (-1)) = true.
+Proof. exact negative_result_panics. Qed.
+Print Assumptions C09_negative_result_panics.
